@@ -297,7 +297,7 @@ func DecodeObject(r io.Reader) (ugo.Object, error) {
 			return nil, err
 		}
 
-		buf := make([]byte, 2+size)
+		buf := make([]byte, 2+int(size))
 		buf[0] = btype
 		buf[1] = size
 		if size > 0 {
